@@ -55,7 +55,7 @@ def run_one(case):
     role, point, cause = case["role"], case["point"], case["cause"]
     got = []
     vs = []
-    with World(role=role, apps=["s6a"], line_preempt=case["lines"], max_steps=800000) as w:
+    with World(role=role, apps=["s6a"], line_preempt=case["lines"], max_steps=800000, line_holds=conc.wants_line_holds(case.get("holds"))) as w:
         consumer_ct = None
         # ---------------- reach the life point (fair schedule)
         if point == "connecting":
@@ -202,6 +202,8 @@ def _collect(shard, seed, n):
             f.add("preempted-at-source-line")
         if case.get("holds"):
             f.add("targeted-delay")
+            if conc.wants_line_holds(case.get("holds")):
+                f.add("delay-between-source-lines")
         nt = not (case["point"] == "open-idle" and case["cause"] == "local-close")
         col.record(case, vs, nontrivial=nt, classes=sorted(f))
 
